@@ -191,8 +191,8 @@ def check_malformed(ctx, case):
 
 
 def gen_scot_case(rnd):
-    nc = rnd.randint(1, 6)
-    names = rnd.sample(NAMES, nc)
+    nc = rnd.choice([1, 2, 3, 4, 5, 6, 9, 10, 11, 12, 23])
+    names = rnd.sample(NAMES + ["Cand %s" % chr(65 + i) for i in range(20)], nc)
     parties = [rnd.choice(["Orange (O)", "Yellow (Y)", "Ind", "A, B & C"]) for _ in names]
     nb = rnd.randint(1, 10)
     ballots = []
